@@ -34,6 +34,11 @@ def run_cli(argv: Sequence[str]) -> CliResult:
             code = e.code if isinstance(e.code, int) else (0 if e.code is None else 1)
         except KeyboardInterrupt:
             code = 130
+        except Exception as e:  # what the interpreter does with an exception that escapes main(): traceback on stderr, exit status 1
+            import traceback
+
+            err.write("Traceback (most recent call last):\n" + "".join(traceback.format_tb(e.__traceback__)[-3:]) + f"{type(e).__name__}: {e}\n")
+            code = 1
     # The CLI leaves its trace driver to be closed by interpreter shutdown; collecting here plays the
     # role of process exit for the in-process driver (file objects are flushed when finalised).
     import gc
